@@ -1,15 +1,16 @@
 """C06 — JSON reader accepts documented alternative forms and rejects invalid ones (DESIGN.md §4 C06)."""
 from checks import codec_common as cc
 from checks import codec_json as cj
-from vlib.core import hx
+from vlib.core import hx, load_known
 
-MODULES = []
-THEOREMS = []
+MODULES = ['TLVerif.Props.C06']
+SOURCES = ["TLVerif.Codec.Json", "TLVerif.Codec.JsonPrim", "TLVerif.Codec.JsonText", "TLVerif.Codec.JsonTextLemmas", "TLVerif.Codec.JsonLemmas",
+           "TLVerif.Codec.Ops.Json"]
+THEOREMS = ["TLVerif.Props.C06.omitted_is_empty_prim", "TLVerif.Props.C06.omitted_is_empty_struct", "TLVerif.Props.C06.omitted_is_empty_maybe", "TLVerif.Props.C06.omitted_tuple_nonzero_rejected", "TLVerif.Props.C06.number_as_string_int", "TLVerif.Props.C06.number_as_string_float", "TLVerif.Props.C06.union_as_string", "TLVerif.Props.C06.union_value_first", "TLVerif.Props.C06.maybe_forms", "TLVerif.Props.C06.maybe_without_ok", "TLVerif.Props.C06.masked_field_sets_local_bits_step", "TLVerif.Props.C06.masked_field_sets_local_bits", "TLVerif.Props.C06.external_mask_zero_rejected", "TLVerif.Props.C06.external_mask_accepted", "TLVerif.Props.C06.true_false_with_bit_set_rejected", "TLVerif.Props.C06.unknown_key_rejected", "TLVerif.Props.C06.duplicate_key_rejected", "TLVerif.Props.C06.array_len_must_match_nat", "TLVerif.Props.C06.maybe_okfalse_value_rejected", "TLVerif.Props.C06.dict_as_pairs_rejected"]
 
 
 def run(c):
-    if MODULES:
-        c.lean(MODULES, THEOREMS)
+    c.lean(MODULES, THEOREMS, sources=SOURCES)
     model, scs = cj.setup(c)
     rng = c.rng
     per = 12 if c.thorough else 4
@@ -17,15 +18,31 @@ def run(c):
     for sc in scs:
         items = cc.link_items(sc)
         g = cj.GenJ(sc, rng.fork(), big=False)
+        pre = [sc.desc_line()]
+        # types whose reader/writer pair panics on `{}` (finding F3, reported by C05) are left out
+        c05_known = {k["key"] for k in load_known().get("findings", []) if k.get("property") == "C05"}
+        n0 = len(c.tie_failures)
+        skip = {l.split(" ")[3] for l, a, _ in c.tie("probe:" + sc.sid, cj.probe_lines(sc, items), sc.impl, model, prefix=pre) if a == "panic"}
+        for t in c.tie_failures[n0:]:
+            if t["line"] in c05_known:
+                t["explained"] = True   # reported (and listed as known finding) under C05
+        rw = cj.Rewriter(sc, rng.fork())
+        mp = cj.mask_probe_lines(sc, rw, [x for x in items if x[0]["tlname"] not in skip])
+        for l, a, _ in c.tie("maskprobe:" + sc.sid, sorted(mp), sc.impl, model, prefix=pre):
+            if a == "panic":
+                rw.skip_fields.add(mp[l])
+                c.oracle_fail(l, "documented form 'mask bit set, field omitted = empty value' is accepted by ReadJSON but the value makes WriteJSON panic "
+                                 "(nil pointer for the recursive field)", l)
         lines = []
         for inst, it in items:
+            if inst["tlname"] in skip:
+                c.count("skipped-type:" + inst["tlname"])
+                continue
             for _ in range(per):
                 bts = g.value(inst["idx"], False, [], 0)
                 lines.append("codec.xj %s %d %s 1 %s" % (sc.sid, inst["idx"], inst["tlname"], hx(bts)))
         lines = sorted(set(lines))
-        pre = [sc.desc_line()]
         res = c.tie("xj:" + sc.sid, lines, sc.impl, model, prefix=pre)
-        rw = cj.Rewriter(sc, rng.fork())
         cases = cj.build_c06_cases(c, sc, rw, res, rng, cap)
         l2 = sorted({l for cs in cases for l in cs["lines"]})
         res2 = c.tie("rj:" + sc.sid, l2, sc.impl, model, prefix=pre)
